@@ -11,5 +11,5 @@ Extraction "model.ml" giv_multiplier giv_modulo giv_halfmod giv_ctor_normalises
   general_randiter general_nonzero giv_randiter_size gfq_random gfq_nonzerorandom gf2_random poly_random poly_random_gfq
   bitsize rand_bool random_lessthan random_lessthan_2exp random_exact_2exp random_exact random_between
   nonzerorandom_2exp nonzerorandom_int random_between_2exp random_word nonzerorandom_word
-  rii_next rii_bits rii_init rii_step qfield_random giv_randiter_clamps modint_randiter ru_rand modru_random modru_nonzerorandom orc_of_list.
+  rii_next rii_bits rii_init rii_step qfield_random giv_randiter_clamps ext_size ext_coeff ext_randiter modint_randiter ru_rand modru_random modru_nonzerorandom orc_of_list.
 Cd "..".
